@@ -144,7 +144,10 @@ def main():
                 inconclusive.append((j, r, 'vacuous: %d of %d assertion sites never reached' % (r['assert_sites_total'] - r['assert_sites_reached'], r['assert_sites_total'])))
         elif s == 'VIOLATION':
             k = r['violation']['kind']
-            if k in ('bound', 'unsupported', 'inconclusive'): inconclusive.append((j, r, k + ': ' + r['violation']['msg']))
+            if k == 'bound' and j.get('bound_is_hang') and 'visited more than' in r['violation']['msg'] and r['violation'].get('inputs'):
+                # a loop that outruns its bound on an input of bounded size: candidate hang, decided by the native replay (must not terminate)
+                r['violation']['kind'] = 'hang'; violations.append((j, r))
+            elif k in ('bound', 'unsupported', 'inconclusive'): inconclusive.append((j, r, k + ': ' + r['violation']['msg']))
             else: violations.append((j, r))
         else: inconclusive.append((j, r, s or 'ERROR'))
 
